@@ -228,6 +228,38 @@ def run_check(tier, seed):
     for c, out, desc in emitted[:3]:
         run.samples.append({"stream": "pipe_equality", "argv": desc["argv"], "emitted_head": out.decode("utf-8", "replace")[:200]})
 
+    # ---- stream 3b: the binary is the identity on a document it is given unchanged (no override, not dirty): stdout = stdin text, byte for byte.
+    #      Includes documents well above 8 KiB with multi-byte characters at every alignment (chunked readers, buffer boundaries).
+    ident = [(nasty_schema(rng), nasty_vars(rng)) for _ in range(150 if q else 3000)]
+    big = []
+    for pad in ("", "a", "ab", "abc"):
+        for ch in ("日", "é", "\U0001F600", "é日\U0001F600a"):
+            v = zgen.rand_vars(rng)
+            v["bumped_branch"] = pad + ch * 4000
+            v["custom"] = {("k" + ch * 50 + str(i)): ch * 100 for i in range(8)}
+            big.append(({"core": [("v", "Major"), ("v", "Minor"), ("v", "Patch")], "extra": [("v", "PreRelease")], "build": [("v", "BumpedBranch"), ("s", pad + ch * 700)]}, v))
+    ident = [(s_, v_) for s_, v_ in ident + big if v_.get("dirty") is not True and v_.get("epoch") != 0]
+    pretty = run_lines([ZVH], ["RONRT " + zgen.enc_zerv(s_, v_) for s_, v_ in ident])
+    docs = [(o, unhx(r.split(" ")[1])) for o, r in zip(ident, pretty) if r.startswith("OK ")]
+    outs = run_procs([(["version", "--source=stdin", "--output-format=zerv"], t.encode()) for _, t in docs])
+    run.evaluations += len(outs)
+    st = run.streams.setdefault("identity_through_binary", {"cases": 0, "documents_over_8KiB": 0, "max_bytes": 0})
+    for (o, t), (rc, out, err) in zip(docs, outs):
+        st["cases"] += 1
+        nb = len(t.encode())
+        st["documents_over_8KiB"] += nb > 8192
+        st["max_bytes"] = max(st["max_bytes"], nb)
+        if panicked(rc, err):
+            run.add_violation("oracle", {"stream": "identity_through_binary", "what": "panic", "described": {"stdin_bytes": nb, "stdin_head": t[:300]}, "stderr": err.decode("utf-8", "replace")[-300:]}, True)
+        elif rc != 0 or out.decode("utf-8", "replace") != t + "\n":
+            got = out.decode("utf-8", "replace")
+            k = next((i for i, (a, b) in enumerate(zip(got, t + "\n")) if a != b), min(len(got), len(t) + 1))
+            run.add_violation("oracle", {"stream": "identity_through_binary", "what": "a document piped through `zerv version --source stdin --output-format zerv` does not come back byte-identical",
+                                         "described": {"argv": ["version", "--source=stdin", "--output-format=zerv"], "stdin_bytes": nb, "stdin_head": t[:400], "first_difference_at_char": k,
+                                                       "expected_there": (t + "\n")[max(0, k - 20):k + 20], "got_there": got[max(0, k - 20):k + 20]}, "rc": rc,
+                                         "stderr": err.decode("utf-8", "replace")[-300:]}, True)
+        run.nontrivial.add(t[:200] + str(nb))
+
     # ---- stream 4: damaged documents through the binary and the parser entry point
     base_objs = [(zgen.rand_schema(rng), nasty_vars(rng) if rng.random() < 0.3 else zgen.rand_vars(rng)) for _ in range(300 if q else 6000)]
     pretty = run_lines([ZVH], ["RONRT " + zgen.enc_zerv(s, v) for s, v in base_objs])
